@@ -26,7 +26,7 @@ model's own helpers when those are exactly the library function:
 | `fold`, `any`, `find`, `contains`      | `List.foldl`, `List.any`, `List.find?`, `List.contains`     |
 | `Option::unwrap_or(_default)`          | `Option.getD`                                               |
 | `u8::saturating_sub`                   | `Nat` subtraction                                           |
-| `str::trim()`                          | `Rawr.T.trim` (Unicode `White_Space`)                        |
+| `str::trim()`                          | `Rawr.rustTrim` (Model/Uci.lean; Unicode `White_Space`)      |
 | `u8 + - *`                             | `Rawr.u8add / u8sub / u8mul ar`  (Model/Fen.lean)            |
 | `Bitboard::from_square` = `1u64 << sq` | `Rawr.bitAr ar`                                             |
 | `Bitboard::ray_east / ray_west`        | `Rawr.rayEastBB / rayWestBB` (Model/Basic.lean)             |
@@ -38,16 +38,6 @@ def range (lo hi : Nat) : List Nat := List.range' lo (hi - lo)
 
 /-- `x as u8` for a non-negative integer. -/
 def toU8 (n : Nat) : Nat := n % 256
-
-/-- `char::is_whitespace` (Unicode `White_Space`). -/
-def isWhitespace (c : Char) : Bool :=
-  let n := c.toNat
-  (9 ≤ n && n ≤ 13) || n == 0x20 || n == 0x85 || n == 0xA0 || n == 0x1680 || (0x2000 ≤ n && n ≤ 0x200A) ||
-  n == 0x2028 || n == 0x2029 || n == 0x202F || n == 0x205F || n == 0x3000
-
-/-- `str::trim`. -/
-def trim (s : List Char) : List Char :=
-  ((s.dropWhile isWhitespace).reverse.dropWhile isWhitespace).reverse
 
 /-- `search::settings::Type`. -/
 inductive GoType where
